@@ -29,10 +29,19 @@ ASSUMPTIONS = ["Python int is arbitrary precision; timedelta // timedelta and ti
 def run(ctx: Ctx) -> None:
     backoff(ctx)
     overdue_siblings(ctx, "R-C19-OVERDUE")
+    from .shared import clock_family
+
+    clock_family(ctx, "R-C19-OVERDUE")
     from .C13 import redis_bucket_expiry
 
     redis_bucket_expiry(ctx, "R-C19-OVERDUE")  # the store-side expiry of buckets uses the same timestamp + ttl
     period(ctx)
+    from .C05 import rounding
+    from .C06 import first_run
+
+    with ctx.as_rule("R-C19-PERIOD"):
+        rounding(ctx, "R-C19-PERIOD")  # the computed next execution time is not moved earlier by its conversion for the broker
+        first_run(ctx, "R-C19-PERIOD")  # deferred_until, while still ahead, is the next execution time
     from .delay import whole_duration_rule
 
     whole_duration_rule(ctx, "R-C19-PERIOD")  # schedule arithmetic on whole durations: no delay / period / ttl is reduced to its sub-day remainder
